@@ -13,7 +13,9 @@ WRAP = re.compile(r'\((?:l|dec|dur|dt) -1\)')
 
 
 def two_wrapping_members(text):
-    return len(WRAP.findall(text)) >= 2 or ('(l -1)' in text and '(l -2)' in text)
+    """the signature of F16: a set value in which linear probing pushes a member past slot 2^64-1 (computed, see py/vhash.py)"""
+    import vhash
+    return vhash.any_wrapping_set(text)
 
 
 def extn_shaped_record(text):
